@@ -171,6 +171,27 @@ def kw_cases(rng, words):
     return ops
 
 
+def kw_expect(ck, hcmd, words):
+    ops, exp = [], []
+    for w in words:
+        ops.append("kw " + vf.hexs(w))
+        exp.append("1")
+        ops.append("id %s %d" % (vf.hexs(w), len(w) + 3))
+        exp.append("1 " + vf.hexs(b'"' + w + b'"'))
+    rc, out, err = ck.run(hcmd, input_text="\n".join(ops) + "\n")
+    got = [l.split(" ## ")[0] for l in out.split("\n")]
+    ck.cov["kw_words_checked_against_g_list"] = len(words)
+    nbad = 0
+    for op, e, g in zip(ops, exp, got):
+        if e != g:
+            nbad += 1
+            if nbad <= 2:
+                ck.report("obs", {"label": "reserved-word", "ops": [op], "expect": [e], "impl": [g],
+                                  "model": ["(expected from pgutil_kwlookup.g) " + e]},
+                          what="a word of the reserved list is not recognised / is emitted without quotes")
+    return nbad
+
+
 def run(ck):
     hcmd, dcmd = build(ck)
     ck.level = "proof"
@@ -217,6 +238,10 @@ def run(ck):
     kwc = [kw_cases(rng, words)]
     hist["kw_ops"] = len(kwc[0])
     stream("kw", kwc)
+    # independent of the (regenerated) tables: every word of the .g list must be reported as
+    # reserved and must come out of pg_quote_ident in quotes.  Model and implementation share
+    # the tables, so a wrong table is only visible against this expectation.
+    kw_expect(ck, hcmd, words)
 
     # quoting
     nq = ck.scale(700, 12000) * (4 if intensify else 1)
@@ -274,8 +299,6 @@ def run(ck):
 
 
 PARTIAL = [
-    "array_roundtrip: bare elements whose last character is an escaped blank (`a\\ `) are excluded "
-    "from the proved grammar (the code handles them; they are inside the generator)",
     "lexer spec: truncation of identifiers to NAMEDATALEN-1 bytes is not modelled",
     "reserved list is the one of usual/pgutil_kwlookup.g, not of a PostgreSQL release",
     "empty identifier / empty schema or name part excluded (`\"\"` is not a PostgreSQL identifier)",
@@ -283,4 +306,20 @@ PARTIAL = [
 
 
 def replay(ck, path):
-    return vf.generic_replay(ck, path, *build(ck))
+    import json
+    hcmd, dcmd = build(ck)
+    r = json.load(open(path))
+    if r.get("expect"):
+        # expectation-based case (reserved list): run the implementation only
+        rc, out, err = ck.run(hcmd, input_text="\n".join(r["ops"]) + "\n")
+        got = [l.split(" ## ")[0] for l in out.split("\n") if l]
+        bad = 0
+        for op, e, g in zip(r["ops"], r["expect"], got):
+            vf.log(f"{'!!' if e != g else '  '} {op}\n      impl    : {g}\n      expected: {e}")
+            bad += (e != g)
+        if bad:
+            vf.log(f"VIOLATION property={ck.pid} replay={path}")
+            return 1
+        vf.log("replay: implementation gives the expected result now")
+        return 0
+    return vf.generic_replay(ck, path, hcmd, dcmd)
